@@ -98,7 +98,6 @@ def hamilton_rhs(model: zoo.Model):
         return rhs
     cn = model.constraint
     minv = np.linalg.inv(model.metric_dense)
-    hess = cn.hess()
     gauss = model.kind == "gaussian_constrained"
 
     def rhs(t, z):  # noqa: ARG001
@@ -106,7 +105,7 @@ def hamilton_rhs(model: zoo.Model):
         v = minv @ p
         force = -grad_h1(q) - (q if gauss else 0.0)
         j = cn.jac(q)
-        curv = np.einsum("j,ijk,k->i", v, hess, v)
+        curv = np.einsum("j,ijk,k->i", v, cn.hess(q), v)
         lam = np.linalg.solve(j @ minv @ j.T, curv + j @ minv @ force)
         return np.concatenate([v, force - j.T @ lam])
 
